@@ -175,3 +175,15 @@ def reenter_str(value):
     """Value datatype that only re-enters."""
     reenter()
     return value
+
+
+def kt_reenter(value):
+    """Key type (lower-cases like basic-key for plain names) that
+    re-enters: key types run while the text is being read."""
+    _KT[0] += 1
+    if _KT[0] % 3 == 0:
+        reenter()
+    return value.lower()
+
+
+_KT = [0]
